@@ -174,7 +174,7 @@ def random_schema(rng, depth=0, used=None, allow_map=True):
             elif r < 0.8:
                 t = rng.choice([253, 254, 255, 256, 65535, 65536, 65537])
             else:
-                t = rng.choice([rng.randint(253, 2 ** 32 - 1), 2 ** 32 - 1])
+                t = rng.choice([rng.randint(253, 2 ** 32 - 1), 2 ** 32 - 1, 2 ** 32 - 1, 2 ** 32])
             if t not in used and t != 7:
                 used.add(t)
                 return t
